@@ -36,13 +36,22 @@ def generate(seed, tier):
     for _ in range(rng.randint(2, 4)):
         x, t, _ = gen.gen_point(rng, names, [])
         kind = "iv" if nopar else rng.choice(["by_param", "by_state", "iv"])
-        s = [round(rng.uniform(-2, 2), 4) for _ in range(n * p)]
+        # scales: sensitivities (and amounts) of very different magnitude are legal points too
+        ssc = rng.choice([1.0, 1.0, 1.0, 1e-3, 1e-6, 1e-9, 1e-12])
+        xsc = rng.choice([1.0, 1.0, 1.0, 1.0, 1e-3, 1e-9])
+        x = [v * xsc for v in x]
+        s = [round(rng.uniform(-2, 2), 4) * ssc for _ in range(n * p)]
         z = list(x) + s
         op = {"op": "sens", "t": t, "by_state": kind == "by_state", "iv": kind == "iv"}
         if kind == "iv":
-            z = z + [round(rng.uniform(-2, 2), 4) for _ in range(n * n)]
+            z = z + [round(rng.uniform(-2, 2), 4) * ssc for _ in range(n * n)]
         op["z"] = z
+        op["jac_first"] = rng.random() < 0.4       # the supplied Jacobian is asked for before the right-hand side
         ops.append(op)
+        if not nopar and rng.random() < 0.12 and len(ops) < 4:
+            # the model grows between two uses of the sensitivity functions (same states and parameters)
+            g = sc.grow_ops(S("sched"), model, names, params, ["grad"], count=1)
+            ops.append(g[0])
     theta = [round(rng.uniform(0.05, 3.0), 4) for _ in params]
     return {"engine": "session", "model": model, "env": {"K": kenv}, "theta": theta, "ops": ops, "batch": batch}
 
